@@ -59,3 +59,22 @@ def pump_words(maxlen):
 
 def lines_text(ws):
     return '\n'.join(ws) + '\n'
+
+
+# ---- "same text in two roles" family: one short string placed in two different syntactic roles of one document
+ROLE_CONTEXTS = [
+    ('plain', 'w {c} z'), ('whole-paragraph', '{c}'), ('code-span', 'w `{c}` z'), ('emphasis', 'w *{c}* z'), ('strong', 'w **{c}** z'),
+    ('strikethrough', 'w ~~{c}~~ z'), ('heading', '# {c}'), ('setext', '{c}\n==='), ('list-item', '- {c}'), ('quote', '> {c}'),
+    ('table-cell', '| {c} | x |\n| --- | --- |\n| y | {c} |'), ('link-text', 'w [{c}](/u) z'), ('link-dest', 'w [t]({c}) z'),
+    ('link-dest-angle', 'w [t](<{c}>) z'), ('link-title', 'w [t](/u "{c}") z'), ('image-alt', 'w ![{c}](/i) z'),
+    ('image-src', 'w ![a]({c}) z'), ('autolink', 'w <http://a.b/{c}> z'), ('fence-content', '```\n{c}\n```'), ('fence-info', '```{c}\nx\n```'),
+    ('indented-code', '    {c}'), ('html-block', '<div>{c}</div>'), ('refdef-title', '[r]: /u "{c}"\n\n[r]'), ('escaped', 'w \\{c} z'),
+]
+
+
+def role_documents(strings, triples=False):
+    """every ordered pair of roles for every string: ctxA(s) blank-line ctxB(s)"""
+    for s_ in strings:
+        for (na, a) in ROLE_CONTEXTS:
+            for (nb, b) in ROLE_CONTEXTS:
+                yield (s_, na, nb), a.replace('{c}', s_) + '\n\n' + b.replace('{c}', s_) + '\n'
